@@ -24,6 +24,12 @@ LoopCfgs == {c \in AllCfgs : c.ma \in {1, 16} /\ c.dealloc /\ c.shrinks /\ ~c.sk
 PrepFailCfgs == {c \in AllCfgs : c.ma = 1 /\ c.mcs = 0 /\ c.hs = 32 /\ c.extra = 0 /\ ~c.skew /\ c.ga /\ c.dealloc /\ c.shrinks}
 PrepFailCtors == {[k |-> "new", n |-> 0, al |-> 1]}
 
+\* quick model-checking subset: both directions, two minimum alignments, every value of dealloc / shrinks, + the two special ones
+McCfgsQuick ==
+    {c \in McCfgs : \/ c.hs = 48
+                    \/ <<c.up, c.ma, c.dealloc, c.shrinks>> \in {<<TRUE, 1, TRUE, TRUE>>, <<TRUE, 8, FALSE, FALSE>>, <<FALSE, 1, FALSE, TRUE>>,
+                                                                <<FALSE, 8, TRUE, FALSE>>, <<TRUE, 8, TRUE, FALSE>>, <<FALSE, 8, TRUE, TRUE>>}}
+
 McCtors == {[k |-> "new", n |-> 0, al |-> 1], [k |-> "unallocated", n |-> 0, al |-> 1]}
 SimCtors == McCtors \cup {[k |-> "with_size", n |-> 200, al |-> 1], [k |-> "with_capacity", n |-> 100, al |-> 32],
                           [k |-> "with_capacity", n |-> 3, al |-> 1]}
@@ -33,6 +39,7 @@ SimLayouts == {[sz |-> s, al |-> a] : s \in {0, 1, 3, 8, 16, 17, 24, 40, 100, 30
               \cup {[sz |-> 16, al |-> 4096], [sz |-> 5000, al |-> 8]}
 
 Wraps == {"none", "wd", "ws", "both"}
+McTw == {"u64_u64", "a32_u8"}
 \* workloads of the composite C03 actions (ScopeTwice, ResetLoop)
 L(s, a) == [sz |-> s, al |-> a]
 Workloads == { <<L(24, 8)>>, <<L(100, 1), L(40, 32)>>, <<L(300, 8), L(17, 1), L(300, 64)>>, <<L(3, 1), L(5000, 8)>>,
@@ -62,7 +69,7 @@ Next ==
     \/ \E id \in LiveIds : Realloc(id, "none")
     \/ EnterClaim
     \/ ExitClaim("return")
-    \/ \E lvl \in ClaimLevels, op \in {"alloc", "grow", "dealloc", "shrink"}, id \in LiveIds \cup {0}, l \in Layouts : ClaimedOp(lvl, op, id, l)
+    \/ \E lvl \in ClaimLevels, op \in {"alloc", "grow", "dealloc", "shrink"}, id \in LiveIds \cup {0}, l \in {[sz |-> 8, al |-> 8], [sz |-> 3, al |-> 1]} : ClaimedOp(lvl, op, id, l)
     \/ \E n \in {1, 8, 16}, sc \in Bools : EnterAligned(n, sc)
     \/ ExitAligned("return")
     \/ \E n \in {8, 16} : EnterBmws(n)
@@ -75,7 +82,8 @@ Next ==
     \/ \E rv \in Bools, h \in {0, 3}, n \in {2, 5} : IterMut([sz |-> 8, al |-> 8], rv, h, n)
     \/ \E id \in LiveIds, at \in {1, 8, 16} : Split(id, at)
     \/ ScopeTwice(<<L(40, 32), L(24, 4)>>)
-    \/ \E tw \in TwFams, o \in Bools, m \in Bools, i \in Bools, f \in Bools : AllocTryWith(tw, o, m, i, f)
+    \/ \E tw \in {t \in TwFams : t.name \in McTw}, o \in Bools, m \in Bools, i \in Bools : AllocTryWith(tw, o, m, i, FALSE)
+    \/ \E tw \in {t \in TwFams : t.name = "a32_u8"}, m \in Bools : AllocTryWith(tw, FALSE, m, FALSE, TRUE)
     \/ AllocValue("copy_u8", 3, FALSE)
 
 Spec == Init /\ [][Next]_vars
